@@ -25,6 +25,7 @@ class PycodeSerializer:
     """
 
     context: XmlContext = field(default_factory=XmlContext)
+    aliases: dict[type, str] = field(default_factory=dict, init=False, repr=False)
 
     def render(self, obj: object, var_name: str = "obj") -> str:
         """Serialize the input model instance to python representation string.
@@ -54,19 +55,64 @@ class PycodeSerializer:
         for chunk in self.repr_object(obj, 0, types):
             tmp.write(chunk)
 
-        imports = self.build_imports(types)
+        self.aliases = self.build_aliases(types)
+        if self.aliases:
+            # Two imports of the same name would shadow each other, write it again
+            types = set()
+            tmp = StringIO()
+            for chunk in self.repr_object(obj, 0, types):
+                tmp.write(chunk)
+
+        imports = self.build_imports(types, self.aliases)
+        self.aliases = {}
         out.write(imports)
         out.write("\n\n")
         out.write(f"{var_name} = ")
         out.write(tmp.getvalue())
         out.write("\n")
 
+    def build_aliases(self, types: set[type]) -> dict[type, str]:
+        """Build aliases for the types that share their name with another type.
+
+        Args:
+            types: A set of types
+
+        Returns:
+            A type to alias map, empty if all imported names are unique.
+        """
+        groups: dict[str, set[tuple[str, str]]] = {}
+        for tp in types:
+            if tp.__module__ not in ("builtins", "datetime"):
+                name = tp.__qualname__.split(".")[0]
+                groups.setdefault(name, set()).add((tp.__module__, name))
+
+        conflicts = {name for name, sources in groups.items() if len(sources) > 1}
+        # Only models and enums are written by name, other values by their repr
+        return {
+            tp: f"{tp.__module__.replace('.', '_')}_{tp.__qualname__.split('.')[0]}"
+            for tp in types
+            if tp.__qualname__.split(".")[0] in conflicts
+            and (issubclass(tp, Enum) or self.context.class_type.is_model(tp))
+        }
+
+    def type_name(self, tp: type) -> str:
+        """Return the name the given type is imported as."""
+        alias = self.aliases.get(tp)
+        if alias is None:
+            return tp.__qualname__
+
+        _, _, rest = tp.__qualname__.partition(".")
+        return f"{alias}.{rest}" if rest else alias
+
     @classmethod
-    def build_imports(cls, types: set[type]) -> str:
+    def build_imports(
+        cls, types: set[type], aliases: dict[type, str] | None = None
+    ) -> str:
         """Build a list of imports from the given types.
 
         Args:
             types: A set of types
+            aliases: The aliases of the types with conflicting names
 
         Returns:
             The `from x import y` statements as string.
@@ -82,7 +128,10 @@ class PycodeSerializer:
                 if "." in name:
                     name = name.split(".")[0]
 
-                imports.add(f"from {module} import {name}\n")
+                if aliases and tp in aliases:
+                    imports.add(f"from {module} import {name} as {aliases[tp]}\n")
+                else:
+                    imports.add(f"from {module} import {name}\n")
 
         return "".join(sorted(imports))
 
@@ -105,7 +154,7 @@ class PycodeSerializer:
         elif self.context.class_type.is_model(obj):
             yield from self.repr_model(obj, level, types)
         elif isinstance(obj, Enum):
-            yield f"{type(obj).__qualname__}.{obj.name}"
+            yield f"{self.type_name(type(obj))}.{obj.name}"
         else:
             yield literal_value(obj)
 
@@ -182,7 +231,7 @@ class PycodeSerializer:
         Yields:
             An iterator of the representation strings.
         """
-        yield f"{obj.__class__.__qualname__}(\n"
+        yield f"{self.type_name(obj.__class__)}(\n"
 
         next_level = level + 1
         index = 0
